@@ -92,7 +92,7 @@ func propC16(r *kernel.Run) {
 			c16Adversary(r, tp, w, creds, id, nodeID)
 			continue
 		}
-		stateKind := Pick2(tp, "absent", "empty", "flat", "nested", "medium")
+		stateKind := Pick2(tp, "absent", "empty", "flat", "nested", "medium", "deep")
 		var st *structpb.Struct
 		switch stateKind {
 		case "empty":
@@ -101,6 +101,18 @@ func propC16(r *kernel.Run) {
 			st = mkStruct(r, 2)
 		case "nested":
 			st = mkStruct(r, 3)
+		case "deep":
+			// nesting far deeper than anything flat: application state is the application's business
+			depth := tp.Range(6, 40)
+			leaf := map[string]any{"leaf": float64(tp.Draw(1000))}
+			cur := leaf
+			for d := 0; d < depth; d++ {
+				cur = map[string]any{"n": cur, "l": []any{float64(d)}}
+			}
+			var err error
+			if st, err = structpb.NewStruct(cur); err != nil {
+				r.HarnessErr("deep struct: %v", err)
+			}
 		case "medium":
 			st = bigStruct(r, tp.Range(1000, 12000)) // stays below 100 ALPN chunks (larger payloads are C07's honest-configuration clause)
 		}
